@@ -821,6 +821,14 @@ pub fn gen_c19(rng: &mut Rng, quick: bool, st: &mut Stats) -> Vec<String> {
             st.bump("zero_length_positions");
         }
     }
+    // the refused entry carries extreme values in its other fields (the refusal itself must not compute with them)
+    for (k, (id, off, run)) in [(u64::MAX, 7u64, 1u32), (u64::MAX - 3, 7, u32::MAX), (u64::MAX, u64::MAX, u32::MAX), (9, u64::MAX, 1), (u64::MAX - 1, 0, 2), (1 << 63, 1 << 63, 0)].iter().enumerate() {
+        let mut es = valid_entries(rng, k % 3, true, false, st);
+        es.retain(|e| e.tile_id < 1 << 40);
+        es.push(pmtiles2::Entry { tile_id: *id, offset: *off, length: 0, run_length: *run });
+        c.push(format!("chk_zero_len_dir {}", entries_tok(&es)));
+        st.bump("zero_length_entry_with_extreme_fields");
+    }
     // length fields that are zero only after narrowing to 32 bits (non-zero multiples of 2^32), and other over-wide lengths
     for (k, len) in [1u64 << 32, 2 << 32, 3 << 32, (1 << 32) + 5, 1 << 35, 1 << 63, u64::MAX].iter().enumerate() {
         for (j, pos) in [0usize, 1].iter().enumerate() {
